@@ -51,3 +51,106 @@ def render_lex(doc, rng=None, header=None):
 
 def gen_input(rng, maxlen=12):
     return "".join(rng.choice(ALPHA) for _ in range(rng.randint(0, maxlen)))
+
+
+# ---------------------------------------------------------------------------------------------
+# C11: the lexer definition as a faithful image of the .l source.  Documents with written
+# regular expressions (including escapes), start states, targets, flags given in a %grmtools
+# section or through the builder; the renderer records the spans of all names.
+WRITTEN = ["a", "ab", "[0-9]+", "a.", "^a", "k", "a b", "\\\"", "\\'", "\\,", "\\e", "\\ ", "x\\ y", "\\n", "\\x41", "\\d+",
+           "\\.", "\\b", "a\\b", "\\é", "é+", "\\%", "\;", "\\\\", "\\/\\/", "[a-z]+", "\\<", "a\\<b", "\\=", "\\@x", "\\u00e9",
+           "\\tq", "q\\:", "\\!"]
+FLAGS = ["dot_matches_new_line", "multi_line", "octal", "posix_escapes", "case_insensitive", "swap_greed",
+         "ignore_whitespace", "allow_wholeline_comments"]
+DEFAULTS = dict(allow_wholeline_comments=False, dot_matches_new_line=True, multi_line=True, octal=True, posix_escapes=False)
+
+
+def gen_lsrc(rng):
+    ns = rng.randint(0, 3)
+    states = [dict(name=rng.choice(["A", "St8", "cmt", "X_1", "q.r"]) + str(i), excl=rng.random() < 0.5) for i in range(ns)]
+    rules = []
+    pool = WRITTEN[:]
+    rng.shuffle(pool)
+    for i in range(rng.randint(1, 6)):
+        r = dict(re=pool[i], name=None, states=[], target=None, quote=rng.choice(["'", '"']))
+        if rng.random() < 0.8:
+            r["name"] = rng.choice(["T", "tok", "N_", "é", "+", "if"]) + str(i)
+        if states and rng.random() < 0.4:
+            r["states"] = [s["name"] for s in rng.sample(states, rng.randint(1, min(2, len(states))))]
+            if rng.random() < 0.2:
+                r["states"].append("INITIAL")
+        if states and rng.random() < 0.3:
+            r["target"] = (rng.choice(["", "+", "-"]), rng.choice([s["name"] for s in states] + ["INITIAL"]))
+        rules.append(r)
+    header = None
+    builder = None
+    if rng.random() < 0.5:
+        header = {f: rng.random() < 0.5 for f in rng.sample(FLAGS, rng.randint(0, 3))}
+    if rng.random() < 0.3:
+        builder = {f: rng.random() < 0.5 for f in rng.sample(FLAGS, rng.randint(0, 3))}
+    return dict(states=states, rules=rules, header=header, builder=builder)
+
+
+def eff_flags(doc):
+    """flags in force: builder flags (if the builder is used, the section is ignored), else the
+    %grmtools section, over the defaults"""
+    eff = dict(DEFAULTS)
+    src = doc["builder"] if doc["builder"] is not None else (doc["header"] or {})
+    eff.update(src)
+    return eff
+
+
+def render_lsrc(doc, rng):
+    """-> (text, rdoc with byte spans and code points)"""
+    b = bytearray()
+
+    def put(s):
+        nonlocal b
+        b += s.encode("utf-8")
+    eff = eff_flags(doc)
+    comments = eff.get("allow_wholeline_comments", False)
+    if doc["header"] is not None:
+        items = [(k if v else "!" + k) for k, v in doc["header"].items()]
+        put(rng.choice(["%grmtools{", "%grmtools {", " %grmtools\n{ "]) + rng.choice([", ", ",", " ,\n "]).join(items) + rng.choice(["}", " }", ",}" if items else "}"]))
+        put(rng.choice(["\n", " \n", "\n\n"]))
+    rstates = []
+    for s in doc["states"]:
+        if comments and rng.random() < 0.3:
+            put("// a comment\n")
+        put(rng.choice(["%x", "%X", "%xstate"]) if s["excl"] else rng.choice(["%s", "%S", "%start"]))
+        put(rng.choice([" ", "\t", "  "]))
+        st = len(b)
+        put(s["name"])
+        rstates.append(dict(name=s["name"], excl=s["excl"], s=st, e=len(b)))
+        put(rng.choice(["\n", "  \n", "\n\n"]))
+    put("%%\n")
+    rrules = []
+    for r in doc["rules"]:
+        if comments and rng.random() < 0.3:
+            put("// rule comment 'x'\n")
+        if rng.random() < 0.2:
+            put("\n")
+        pre = ("<%s>" % rng.choice([",", ", "]).join(r["states"])) if r["states"] else ""
+        put(pre)
+        put(r["re"])
+        put(rng.choice([" ", "  ", "\t", " \t "]))
+        if r["target"]:
+            put("<%s%s>" % r["target"])
+        if r["name"] is None:
+            pos = len(b)
+            put(rng.choice([";", "''", '""']))
+            ns, ne = pos, pos
+        else:
+            put(r["quote"])
+            ns = len(b)
+            put(r["name"])
+            ne = len(b)
+            put(r["quote"])
+        put(rng.choice(["\n", " \n", "\n"]))
+        rrules.append(dict(name=r["name"] or "", named=r["name"] is not None, ns=ns, ne=ne,
+                           re=[ord(c) for c in r["re"]], prefixed=bool(r["states"]),
+                           states=r["states"], has_target=r["target"] is not None,
+                           op={"": 1, "+": 2, "-": 3}[r["target"][0]] if r["target"] else 0,
+                           tgt=r["target"][1] if r["target"] else ""))
+    text = b.decode("utf-8")
+    return text, dict(states=rstates, rules=rrules, eff=eff, posix=eff.get("posix_escapes", False))
